@@ -299,6 +299,10 @@ def run(ctx):
         # ---- HAL operations from garbage-filled buffers with guard tails (the C07/C11 programs), as a footprint validator
         from . import halgen, halrun
         hcases = [halgen.program(rng) for _ in range(800 if quick else 20000)]
+        # the families whose kernels index through raw pointers with several size parameters (prepared operand longer or
+        # shorter than its source, result shorter than the product, limb offsets) get their own share
+        for fam in ("cnv", "cnv_pair", "cnv_const", "vmp", "vmp_offset", "vmp_small", "svp_dft", "dft_select"):
+            hcases += [halgen.program(rng, fam) for _ in range(200 if quick else 3000)]
         bad = halrun.run_cases(ctx, binp, drv, hcases)
         for (k, d, a, b) in bad[:5]:
             line, meta = hcases[k]
